@@ -219,6 +219,16 @@ def reachability_cutoff(sx, shape, symrows, max_states, lab='int'):
         sx.prove(len(got) >= min(len(full), max_states) or got == full, 'cutoff-not-earlier-than-documented')
         got_inf = mdp.reachable_states()
         sx.prove(got_inf == full, 'reachable-states-is-closure')
+        # further queries on the SAME object with other cut-offs (keyword and positional): each answers for its own cut-off
+        for k2 in (max_states + 1, 1, 100):
+            for kw in (True, False):
+                g2 = mdp.reachable_states(max_states=k2) if kw else mdp.reachable_states(k2)
+                how = 'keyword' if kw else 'positional'
+                sx.prove(g2 <= full and start <= g2, f'repeated-cutoff-query-subset-and-start[{k2},{how}]')
+                sx.prove(len(g2) >= min(len(full), k2) or g2 == full, f'repeated-cutoff-query-not-earlier-than-documented[{k2},{how}]')
+                if len(start) >= k2:
+                    sx.prove(g2 == start, f'repeated-cutoff-query-stops-at-once[{k2},{how}]')
+        sx.prove(mdp.reachable_states(max_states=max_states) == got, 'repeated-cutoff-query-same-answer')
 
 
 def round_trip(sx, shape, symrows, lab='int', alab='str', explicit=False):
